@@ -8,6 +8,7 @@ import ActsModel.Driver.Glob
 import ActsModel.Driver.Tmo
 import ActsModel.Driver.Wf
 import ActsModel.Driver.Admit
+import ActsModel.Driver.Op
 open Lean Acts.Driver
 
 def dispatch (req : Lean.Json) : Lean.Json :=
@@ -24,6 +25,7 @@ def dispatch (req : Lean.Json) : Lean.Json :=
   | "c19.parse" => tmoParse req
   | "c20.tree" => treeCase req
   | "c05.admit" => admitCase req
+  | "op.run" => opRun req
   | "ping" => Lean.Json.mkObj [("pong", Lean.Json.bool true)]
   | c => Lean.Json.mkObj [("error", Lean.Json.str s!"unknown cmd {c}")]
 
